@@ -11,6 +11,7 @@ the noise variance.
 """
 
 import itertools
+import math
 from abc import ABCMeta, abstractmethod
 from copy import copy
 from itertools import product
@@ -1770,12 +1771,17 @@ class MMSEIASolver(IterativeIASolverBaseClass):
                 self._mu[i] = mu_i
             else:
                 try:
-                    # If we are not done yet then we need to perform the
-                    # bisection method to find the best mu value between
-                    # min_mu_i and max_mu_i
-                    mu_i = optimize.newton(  # pylint: disable= E1101
+                    # If we are not done yet then we need to find the best
+                    # mu value between min_mu_i and max_mu_i. The cost is
+                    # a decreasing function of mu and, since Hii_herm_U
+                    # has unitary norm after the scaling, the norm of Vi
+                    # is at most 1/mu: the cost is not positive anymore
+                    # for mu = 1/sqrt(P).
+                    max_mu_i = 1.0 / math.sqrt(self.P[i])
+                    mu_i = optimize.brentq(  # pylint: disable= E1101
                         func,
                         min_mu_i,
+                        max_mu_i,
                         args=(sum_term, Hii_herm_U, self.P[i]),
                         maxiter=200)
                 except RuntimeError:  # pragma: nocover
